@@ -447,10 +447,11 @@ pub fn concat_parallel_results(results: Vec<Vec<DataChunk>>) -> Vec<DataChunk> {
 pub fn merge_distinct_results(
     results: Vec<Vec<DataChunk>>,
 ) -> Result<Vec<DataChunk>, OperatorError> {
-    use std::collections::HashSet;
+    use std::collections::HashMap;
 
-    // Simple row-based deduplication using hash
-    let mut seen: HashSet<u64> = HashSet::new();
+    // Row-based deduplication: the hash only selects a bucket, rows are compared cell by cell
+    // (two different rows may share a hash, e.g. [NULL, 0] and [0, NULL])
+    let mut seen: HashMap<u64, Vec<usize>> = HashMap::new();
     let mut unique_rows: Vec<Vec<Value>> = Vec::new();
 
     for chunks in results {
@@ -466,8 +467,9 @@ pub fn merge_distinct_results(
                     row.push(val);
                 }
 
-                let hash = hash_row(&row);
-                if seen.insert(hash) {
+                let bucket = seen.entry(hash_row(&row)).or_default();
+                if !bucket.iter().any(|&i| same_row(&unique_rows[i], &row)) {
+                    bucket.push(unique_rows.len());
                     unique_rows.push(row);
                 }
             }
@@ -475,6 +477,15 @@ pub fn merge_distinct_results(
     }
 
     rows_to_chunks(unique_rows, 2048)
+}
+
+/// Cell-wise identity of two rows (floats by bit pattern, so NaN rows deduplicate too).
+fn same_row(a: &[Value], b: &[Value]) -> bool {
+    a.len() == b.len()
+        && a.iter().zip(b).all(|(x, y)| match (x, y) {
+            (Value::Float64(x), Value::Float64(y)) => x.to_bits() == y.to_bits(),
+            _ => x == y,
+        })
 }
 
 fn hash_row(row: &[Value]) -> u64 {
